@@ -179,7 +179,7 @@ func (adapter *Adapter) UpdateInputs(deps []controller.Input) error {
 				return fmt.Errorf("error deleting controller dependency: %w", err)
 			}
 
-			adapter.deleteWatchFilter(dbDeps[j].Namespace, dbDeps[j].Type)
+			adapter.deleteWatchFilter(dbDeps[j])
 
 			j++
 		}
@@ -190,7 +190,9 @@ func (adapter *Adapter) UpdateInputs(deps []controller.Input) error {
 			}
 
 			if deps[i].Kind == controller.InputDestroyReady {
-				adapter.addWatchFilter(deps[i].Namespace, deps[i].Type, reduced.FilterDestroyReady)
+				adapter.addWatchFilter(deps[i], reduced.FilterDestroyReady)
+			} else {
+				adapter.addWatchFilter(deps[i], nil)
 			}
 
 			if err := adapter.watchFunc(deps[i].Namespace, deps[i].Type); err != nil {
